@@ -205,7 +205,7 @@ def extra(rep, tier, seed, budget):
     """process_task: job.status must be the class name of whatever was raised
     (checked per outcome through the ghost) - and native replay of the worker."""
     from specs import shared_facts as _sf
-    _sf.add_facts(rep, _sf.status_page_only_written_by_berte(), 'writers of BertE.status')
+    _sf.add_facts(rep, _sf.status_page_only_written_by_berte() + _sf.task_queue_unbounded(), 'writers of BertE.status, task queue')
     from bounded import c13_webhook as _wh
     from pyvc.cli import write_replay as _wr
     _r = _wh.run(tier, seed)
@@ -270,6 +270,25 @@ def native_worker_check():
     fails, cases = [], 0
     excs = [None, X.NothingToDo(), X.InternalException(), X.JobFailure('boom'), ValueError('v'), KeyError('k'),
             RuntimeError('r'), X.BuildInProgress()]
+    # every exception class the code base defines with its own __str__ (a job may raise any of them)
+    import importlib
+    import inspect
+    import pkgutil
+    import bert_e
+    names = ['bert_e.exceptions', 'bert_e.settings', 'bert_e.job', 'bert_e.lib.git', 'bert_e.lib.simplecmd']
+    for pkg in ('bert_e.lib', 'bert_e.git_host'):
+        names += [m.name for m in pkgutil.walk_packages(importlib.import_module(pkg).__path__, pkg + '.')]
+    for name in sorted(set(names)):
+        mi = SimpleNamespace(name=name)
+        try:
+            mod = importlib.import_module(mi.name)
+        except Exception:  # noqa
+            continue
+        for _, cls in inspect.getmembers(mod, inspect.isclass):
+            if cls.__module__ == mi.name and issubclass(cls, Exception) and '__str__' in cls.__dict__:
+                e = cls.__new__(cls)
+                e.args = ('x',)
+                excs.append(e)
     for exc in excs:
         b = BertE.__new__(BertE)
         b.task_queue, b.tasks_done, b.status = Queue(), deque(maxlen=1000), {}
